@@ -5,10 +5,14 @@
     Stage 1 (proved, all grid sizes, all probability spaces -- the statements are equalities
     of lists and use no algebra, so they also hold for binary64 floats): the triangular
     packing.  Stage 2 (proved, all spaces, all valid edge orders): the message-level
-    specification of the inside pass.  See the end of the file for what is NOT proved. *)
-From Coq Require Import List QArith Arith.
+    specification of the inside pass.  Stage 3 (proved, linear space over the reals, every
+    single tree given as an inductive [tree], every grid size, priors and likelihoods >= 0
+    with zeros allowed): the returned marginal likelihood equals the brute-force normalising
+    constant and the posterior of the ROOT equals the brute-force marginal.
+    See the end of the file for what is NOT proved. *)
+From Coq Require Import List QArith Reals Arith Permutation.
 From TsdateV Require Import lib.Num model.Discrete proofs.DiscreteBase proofs.DiscretePack
-  proofs.DiscreteInside proofs.DiscreteEx.
+  proofs.DiscreteInside proofs.DiscreteLog proofs.DiscreteTree proofs.DiscreteBrute proofs.DiscreteEx.
 Import ListNotations.
 
 (** rowsum_lower_tri (A (.) B) [i] = (+)_{j <= i} A(i,j) (.) B(i,j) for the flattened
@@ -69,6 +73,61 @@ Theorem C10_inside_equation_partial : forall (P : Space) (G : nat) lik sfrac fix
 Proof. exact inside_equation. Qed.
 Print Assumptions C10_inside_equation_partial.
 
+(** *** Stage 3: single trees against brute force (linear space, reals).
+
+    [tree] (proofs/DiscreteTree.v): [Leaf e u] is a fixed node u below edge e, [Node e u cs] a
+    non-fixed node with children cs.  [labelings G t] (proofs/DiscreteBrute.v) enumerates ALL
+    assignments of a grid index in [0,G) to every internal node of t; [wt lik priorv t l] is the
+    weight of one assignment: the product of the priors of the internal nodes at their indices
+    and of the likelihoods of all edges, 0 as soon as a child has a larger index than its
+    parent (samples sit at index 0).  [tree_ok] says that t is the tree described by the edge
+    groups (every internal node is non-fixed, its child edges are one of the groups, its prior
+    has G entries; leaves are fixed); [all_pos] says that no internal node has an all-zero
+    inside vector (otherwise the code computes 0/0); [sfrac e = 1]: one tree, so every span
+    fraction is 1; root_spans = [(root, 1)]. *)
+Open Scope R_scope.
+
+(** the belief-propagation recursion equals the sum over all assignments of the subtree *)
+Theorem C10_inside_is_subtree_sum : forall (G : nat) lik priorv e u cs i, (i < G)%nat ->
+  sumR (map (wt lik priorv (Node e u cs)) (labelings_at G (Node e u cs) i)) = U lik priorv (Node e u cs) i.
+Proof. exact (fun G lik priorv e u cs => U_is_brute_force G lik priorv (Node e u cs)). Qed.
+Print Assumptions C10_inside_is_subtree_sum.
+
+(** the likelihood returned by inside_pass is the exact normalising constant of the model *)
+Theorem C10_marginal_likelihood : forall (G : nat) lik sfrac fixed priorv es root e cs st m,
+  (forall e i j, 0 <= lik e i j) -> (forall u x, In x (priorv u) -> 0 <= x) -> (forall e, sfrac e = 1) ->
+  let gs := groupby e_parent es in
+  let t := Node e root cs in
+  inside_order fixed [] gs ->
+  inside_pass LinR G lik sfrac fixed priorv true es [(root, 1)] = Some (st, m) ->
+  tree_ok G fixed priorv gs t -> all_pos G lik priorv t ->
+  Permutation (inodes t) (filter (fun p => negb (fixed p)) (map fst gs)) ->
+  m = sumR (map (wt lik priorv t) (labelings G t)).
+Proof. exact marginal_likelihood_exact. Qed.
+Print Assumptions C10_marginal_likelihood.
+
+(** the normalised inside * outside of the root is its exact marginal posterior
+    (with or without outside standardisation, cached or recomputed g_i) *)
+Theorem C10_root_posterior_exact_partial :
+  forall (G : nat) lik sfrac fixed priorv es es_out nonfixed cache std num_nodes root e cs st m out,
+  (forall e i j, 0 <= lik e i j) -> (forall u x, In x (priorv u) -> 0 <= x) -> (forall e, sfrac e = 1) ->
+  let gs := groupby e_parent es in
+  let gso := groupby e_child es_out in
+  let t := Node e root cs in
+  inside_order fixed [] gs ->
+  inside_pass LinR G lik sfrac fixed priorv true es [(root, 1)] = Some (st, m) ->
+  tree_ok G fixed priorv gs t -> all_pos G lik priorv t ->
+  Permutation (inodes t) (filter (fun p => negb (fixed p)) (map fst gs)) ->
+  outside_order (map fst gso) [] gso -> ~ In root (map fst gso) -> In root nonfixed ->
+  outside_pass LinR G lik sfrac fixed st cache std false num_nodes 0 es_out [(root, 1)] nonfixed = Some out ->
+  exists v, posterior_grid LinR st out root = Some v /\ length v = G /\
+    forall i, (i < G)%nat ->
+      nth i v 0 / sumR v
+      = sumR (map (wt lik priorv t) (labelings_at G t i)) / sumR (map (wt lik priorv t) (labelings G t)).
+Proof. exact root_posterior_exact. Qed.
+Print Assumptions C10_root_posterior_exact_partial.
+Close Scope R_scope.
+
 (** worked example with exact rationals (3 leaves, 2 internal nodes, 3 timepoints, prior 0 at
     time 0): both edge orders satisfy the order hypotheses, the returned likelihood is the
     explicit sum over all ordered assignments, and the normalised inside*outside of both
@@ -80,9 +139,11 @@ Example C10_nonvacuous :
   Qlt 0 ex10_Z.
 Proof. exact C10_example. Qed.
 
-(** NOT proved (yet): the induction over the tree showing that the solution of these
-    equations is the brute-force marginal of the discretised model
-    ([C10_posterior_exact], [C10_marginal_likelihood] of DESIGN.md).  That part of the
-    property is decided by the oracle of tools/props/c10.py (independent enumeration over
-    all assignments on every tree shape up to 5 leaves, both spaces) and by the
-    correspondence of the model with the implementation. *)
+(** NOT proved: (a) the posterior of the NON-ROOT internal nodes against brute force (the
+    top-down induction for the outside pass, [C10_posterior_exact] of DESIGN.md; the outside
+    pass is specified at message level in proofs/DiscreteOutside.v and checked on the worked
+    example above); (b) the logarithmic-space statement (it needs the run-level consequence
+    of the operation-level homomorphism of C12).  Both are decided on every run by the oracle
+    of tools/props/c10.py: an independent enumeration over all assignments on every tree shape
+    up to 5 leaves (polytomies included), both spaces, all nodes, and by the correspondence
+    of the model with the implementation. *)
